@@ -257,8 +257,20 @@ func runC10Chain(r *core.Run, a *Authority, cfg Config, plan *seams.FaultPlan, h
 		}
 		ow := r.Bool("chain-overwrite")
 		kg := r.Chance(30, "chain-keep-going")
+		ra := RotArgs{Flags: Flags{Overwrite: ow, KeepGoing: kg}}
+		// sometimes the operator overrides the serial with the CURRENT primary's (same common name):
+		// the new certificate then derives the object name of the live one. Refusing is fine,
+		// damaging the live certificate is not.
+		serialKind := "d"
+		if r.Chance(20, "chain-colliding-serial") {
+			if hh := a.CheckHealth(a.Now); hh.Cert != nil {
+				if z := subjectSerial(hh.Cert); z != nil && z.IsInt64() {
+					ra.SerialOverride, serialKind = z.Int64(), "c"
+				}
+			}
+		}
 		a.Now = a.Now.Add(24 * time.Hour)
-		rotErr, crashed := a.Rotate(RotArgs{Flags: Flags{Overwrite: ow, KeepGoing: kg}})
+		rotErr, crashed := a.Rotate(ra)
 		plan.Mode = 0
 		fired := plan.Fired
 		total += fired
@@ -269,7 +281,7 @@ func runC10Chain(r *core.Run, a *Authority, cfg Config, plan *seams.FaultPlan, h
 				firstSite = site
 			}
 		}
-		shape = append(shape, fmt.Sprintf("rot(ow=%v,kg=%v)->%s", ow, kg, errClass(rotErr, crashed)))
+		shape = append(shape, fmt.Sprintf("rot(ow=%v,kg=%v,serial=%s)->%s", ow, kg, serialKind, errClass(rotErr, crashed)))
 		when := fmt.Sprintf("after rotation %d of a chain [%s]", i+1, strings.Join(shape, " "))
 		for _, d := range a.Destroys {
 			if d.Name == oldPrimary && !d.AfterFinalizeOK {
